@@ -5,6 +5,7 @@ import QmcProofs.LawHeatBath
 import QmcProofs.LawGood
 import QmcProofs.LawCluster
 import QmcProofs.LawTimestep
+import QmcProofs.LawTravOK
 
 /-!
 # Law — the law of the executable model IS the kernel of `KernelInvariance`
@@ -465,5 +466,50 @@ example : (modelFlips fr0 sk1).Perm (componentFlips fr0 sk1) := by
 
 
 end Example
+
+/-! ### cluster update and the whole step — hypothesis-free: `TravOK` is proved for every well-formed skeleton
+
+`Qmc.Law.travOK` (QmcProofs/LawTravOK.lean, with QmcProofs/ClusterTraverse.lean and QmcProofs/ClusterNav.lean):
+for every string in which no op lists a variable twice and every op has a variable, the transliterated traversal
+`traverse` ends not `bad` within its fuel and its representatives lie in pairwise different components of the
+leg graph. On `cfgSpace H N L` this needs, besides `VarsOK`, that every bond has a variable (`VarsPos`; true of
+every `IsingSpec.ham`). -/
+
+/-- **cluster update: law = cluster kernel of the update's own family**, on every canonical-tag configuration
+of `cfgSpace` -/
+theorem clusterUpdate_law_eq_kernel (fz : Nat → Bool) (H : Ham) (N L : Nat) (hV : VarsOK H N) (hp : VarsPos H)
+    (c : Config) (hc : c ∈ cfgSpace H N L) (ht : TagCanon c.slots) (c' : Config) :
+    PT.law (clusterKT (1 / 2) fz c) c' =
+      clusterK (ClusterFamily.ofModel (fun o => fz o.bond) H N L hV) c c' :=
+  clusterUpdate_law_eq_kernel_partial fz H N L hV c hc ht (cfgSpace_travOK hV hp hc) c'
+
+/-- **law of one whole step = `sweepKM ; clusterK ; refreshK`** on the Good configurations -/
+theorem step_law_eq_kernels (H : Ham) (β : Rat) (hβ : 0 ≤ β) (hw : ∀ b i, 0 ≤ H.w b i i)
+    (hNb : 0 < H.nbonds) (N L : Nat) (hV : VarsOK H N) (hp : VarsPos H) (fz : Nat → Bool)
+    (hsym : ClusterSym H (fun o => fz o.bond) (cfgSpace H N L)) :
+    lawK (goodSpace H N L) (stepCfgT H none fz β L) =
+      compList [sweepKM H β (goodSpace H N L) L,
+        restr (goodSpace H N L) (clusterK (ClusterFamily.ofModel (fun o => fz o.bond) H N L hV)),
+        restr (goodSpace H N L) (refreshK N)] :=
+  step_law_eq_kernels_partial H β hβ hw hNb N L hV fz hsym
+    (fun _ hc => cfgSpace_travOK hV hp (mem_goodSpace.mp hc).1)
+
+/-- **THE EXECUTABLE WHOLE-STEP MODEL HAS AN INVARIANT IDEALISED LAW** — no hypothesis on the traversal left -/
+theorem isingStep_law_invariant (s : Sampler.IsingSampler) (hv : s.spec.Valid)
+    (hg : 0 ≤ s.spec.gamma) (hNb : 0 < s.spec.ham.nbonds) (β : Rat) (hβ : 0 < β) (L : Nat) :
+    Invariant (sseCutOn s.spec.ham β (cfgSpace s.spec.ham s.spec.nvars L))
+      (lawK (cfgSpace s.spec.ham s.spec.nvars L) (stepCfgT s.spec.ham none s.frozenBond β L)) :=
+  isingStep_law_invariant_partial s hv hg hNb β hβ L
+    (fun _ hc => cfgSpace_travOK (s.spec.hamWF hv) (isingSpec_varsPos s.spec) (mem_goodSpace.mp hc).1)
+
+/-- … with the heat-bath diagonal update -/
+theorem isingStep_law_invariant_hb (s : Sampler.IsingSampler) (hv : s.spec.Valid)
+    (hg : 0 ≤ s.spec.gamma) (hW : 0 < (makeBondWeights s.spec.ham).sum) (β : Rat) (hβ : 0 < β) (L : Nat) :
+    Invariant (sseCutOn s.spec.ham β (cfgSpace s.spec.ham s.spec.nvars L))
+      (lawK (cfgSpace s.spec.ham s.spec.nvars L)
+        (stepCfgT s.spec.ham (some (makeBondWeights s.spec.ham)) s.frozenBond β L)) :=
+  isingStep_law_invariant_partial_hb s hv hg hW β hβ L
+    (fun _ hc => cfgSpace_travOK (s.spec.hamWF hv) (isingSpec_varsPos s.spec) (mem_goodSpace.mp hc).1)
+
 
 end Qmc.LawThm
